@@ -63,3 +63,38 @@ def rpms_03(mods, seed):
     doc = {"header": {"version": "0.3"},
            "payload": {"compose": {"id": c.id, "type": c.type, "date": c.date, "respin": c.respin}, "manifest": manifest}}
     return json.dumps(doc), doc
+
+
+def composeinfo_legacy(mods, seed, version):
+    """composeinfo 0.x / 1.0 / 1.1 document down-converted from a random valid current one (doc/composeinfo-1.1.rst 'Changes from 1.0',
+    C05 statement): 1.0: no header type, no release/base_product type; 0.x: 'product' section instead of 'release', no 'variants' child lists
+    (variants related by UID prefix only), compose date/type/respin only inside the id"""
+    g = gen.G(mods, seed)
+    vt = tuple(int(x) for x in version.split("."))
+    # before 1.0 variants are related by UID prefix only: such documents can only express depth <= 2 without dashed top-level UIDs
+    ci = g.composeinfo(maxdepth=2, dashed=False) if vt < (1, 0) else g.composeinfo()
+    doc = json.loads(ci.dumps())
+    doc["header"]["version"] = version
+    if vt < (1, 1):
+        doc["header"].pop("type", None)
+        doc["payload"]["release"].pop("type", None)
+        if "base_product" in doc["payload"]:
+            doc["payload"]["base_product"].pop("type", None)
+        for v in doc["payload"]["variants"].values():
+            if "release" in v:
+                v["release"].pop("type", None)
+    if vt <= (0, 3):
+        doc["payload"]["product"] = doc["payload"].pop("release")
+        doc["payload"]["product"].pop("internal", None)
+        for v in doc["payload"]["variants"].values():
+            if "release" in v:
+                v["product"] = v.pop("release")
+                v["product"].pop("internal", None)
+    if vt < (1, 0):
+        for v in doc["payload"]["variants"].values():
+            v.pop("variants", None)
+    if vt < (0, 3):
+        c = doc["payload"]["compose"]
+        c.pop("date", None)
+        c.pop("respin", None)
+    return json.dumps(doc), ci, doc
